@@ -145,3 +145,91 @@ fn shape_trunc_push2_mid() {
     let d: u8 = kani::any();
     check::<2>([0x61, d], usize::MAX);
 }
+
+// ---- family 3: opcodes WITHOUT immediate data in legacy code, each directly before JUMPDESTs --------------------
+// In legacy code ONLY PUSH1..PUSH32 carry immediate bytes.  The EOF-only opcodes that have immediates in an EOF
+// container (0xD1 DATALOADN, 0xE0 RJUMP, 0xE1 RJUMPI, 0xE3 CALLF, 0xE5 JUMPF: 2 bytes; 0xE2 RJUMPV, 0xE6 DUPN,
+// 0xE7 SWAPN, 0xE8 EXCHANGE, 0xEC EOFCREATE, 0xEE RETURNCONTRACT: 1 byte), undefined bytes and every other
+// opcode are ONE byte long: a JUMPDEST directly behind them is a valid destination.  (Added after an
+// independent seeded mutation -- skip length taken from OPCODE_INFO_JUMPTABLE[..].immediate_size() -- survived
+// the PUSH/DUP-only shapes.)  All bytes concrete; code = op JD JD  op' JD JD ...: an opcode that wrongly swallows
+// 1 or 2 (or more) bytes loses the destinations behind it, the walk resynchronises on the next JUMPDEST.
+
+/// the i-th byte value (i in 0..223) that is neither JUMPDEST (0x5b) nor PUSH1..PUSH32 (0x60..0x7f)
+fn nth_nonpush(i: usize) -> u8 {
+    if i < 0x5b {
+        i as u8
+    } else if i < 0x5f {
+        (i + 1) as u8
+    } else {
+        (i + 33) as u8
+    }
+}
+/// code of N triples `op JD JD` for the non-PUSH byte values number first .. first+N
+fn triples<const L: usize>(first: usize) -> [u8; L] {
+    let mut code = [JD; L];
+    let mut k = 0;
+    while 3 * k < L {
+        code[3 * k] = nth_nonpush(first + k);
+        k += 1;
+    }
+    code
+}
+
+/// RJUMP JD JD RJUMPV JD JD   (0xE0: 2 immediate bytes in EOF, 0xE2: 1)
+#[kani::proof]
+#[kani::unwind(42)]
+fn shape_eof_imm_quick() {
+    check::<6>([0xe0, JD, JD, 0xe2, JD, JD], 1);
+}
+/// all eleven EOF-only opcodes with immediates, each followed by two JUMPDESTs
+#[kani::proof]
+#[kani::unwind(69)]
+fn shape_eof_imm_all() {
+    check::<33>(
+        [0xd1, JD, JD, 0xe0, JD, JD, 0xe1, JD, JD, 0xe2, JD, JD, 0xe3, JD, JD, 0xe5, JD, JD, 0xe6, JD, JD, 0xe7, JD, JD,
+         0xe8, JD, JD, 0xec, JD, JD, 0xee, JD, JD],
+        1,
+    );
+}
+// ALL 223 byte values that are neither JUMPDEST nor PUSH1..PUSH32, in 8 harnesses of 28 (the last: 27) triples
+#[kani::proof]
+#[kani::unwind(120)]
+fn shape_nonpush_ops_0() {
+    check::<84>(triples::<84>(0), 1);
+}
+#[kani::proof]
+#[kani::unwind(120)]
+fn shape_nonpush_ops_1() {
+    check::<84>(triples::<84>(28), 1);
+}
+#[kani::proof]
+#[kani::unwind(120)]
+fn shape_nonpush_ops_2() {
+    check::<84>(triples::<84>(56), 1);
+}
+#[kani::proof]
+#[kani::unwind(120)]
+fn shape_nonpush_ops_3() {
+    check::<84>(triples::<84>(84), 1);
+}
+#[kani::proof]
+#[kani::unwind(120)]
+fn shape_nonpush_ops_4() {
+    check::<84>(triples::<84>(112), 1);
+}
+#[kani::proof]
+#[kani::unwind(120)]
+fn shape_nonpush_ops_5() {
+    check::<84>(triples::<84>(140), 1);
+}
+#[kani::proof]
+#[kani::unwind(120)]
+fn shape_nonpush_ops_6() {
+    check::<84>(triples::<84>(168), 1);
+}
+#[kani::proof]
+#[kani::unwind(120)]
+fn shape_nonpush_ops_7() {
+    check::<81>(triples::<81>(196), 1);
+}
